@@ -1,0 +1,29 @@
+//go:build verif && !windows
+
+// Verification hooks (build tag "verif" only): evaluate the QID mapping on arbitrary
+// (device, inode) pairs; real files rarely have numbers outside the compact encoding.
+
+package localfs
+
+import (
+	"os"
+	"syscall"
+	"time"
+)
+
+// VerifEncodeLikely is encodeLikely().
+func VerifEncodeLikely(dev, ino uint64) (uint64, bool) { return encodeLikely(dev, ino) }
+
+type verifInfo struct{ st syscall.Stat_t }
+
+func (verifInfo) Name() string       { return "verif" }
+func (verifInfo) Size() int64        { return 0 }
+func (verifInfo) Mode() os.FileMode  { return 0 }
+func (verifInfo) ModTime() time.Time { return time.Time{} }
+func (verifInfo) IsDir() bool        { return false }
+func (v verifInfo) Sys() interface{} { return &v.st }
+
+// VerifLocalToQid is localToQid() on a synthetic FileInfo carrying (dev, ino).
+func VerifLocalToQid(dev, ino uint64) (uint64, error) {
+	return localToQid("", verifInfo{st: syscall.Stat_t{Dev: dev, Ino: ino}})
+}
